@@ -45,6 +45,13 @@ def keys(rnd, tier):
         out.append(("errors", f"<svg>{body}</svg>", {}))
     for f in sorted(glob.glob(os.path.join(vlib.REPO, "examples", "*.xml"))):
         out.append(("example", open(f, encoding="utf-8").read(), {}))
+    # the same document under configurations that differ in a single field
+    doc = '<svg><rect wh="20 10" text="hello" class="d-fill-red d-softshadow"/><line xy1="0 20" xy2="20 20" class="d-arrow d-dash"/></svg>'
+    for cfg in [{}, {"add_metadata": True}, {"seed": 7, "theme": "dark"}, {"debug": True, "border": 9},
+            # one variation of every configuration field: requests that differ in nothing else must not share results
+            {"font_size": 5.0}, {"font_family": "serif"}, {"background": "lightyellow"}, {"scale": 2.0}, {"border": 0},
+            {"theme": "bold"}, {"theme": "glass"}, {"add_auto_styles": False}, {"svg_style": "max-width: 100%"}, {"seed": 99}]:
+        out.append(("config-field", doc, cfg))
     return out
 
 
